@@ -279,6 +279,11 @@ def check_config(res, cfg, paths, discovery=True):
                 except Exception as e:
                     res.violate(Violation("discovery-unparsable", "link-format", core.exc_desc(e), "resource.py:WKCResource", dict(case, filter=flt), key="parse"))
                     continue
+                if (r.opt.no_response or 0) & 2:
+                    # the listing goes to a unicast requester that did not ask for silence: even an empty one is an answer that is sent
+                    res.violate(Violation("discovery-filter", "a response that is sent", "marked No-Response=%d (suppressed by the message layer)" % r.opt.no_response,
+                                          "resource.py:WKCResource.render_get", dict(case, filter=flt), key="suppressed"))
+                    continue
                 want = links if flt is None else filter_model(links, *flt)
                 gk = sorted((h, tuple(sorted((k, v) for k, v in a.items()))) for h, a in got)
                 wk = sorted((h, tuple(sorted(a.items()))) for h, a in want)
